@@ -221,7 +221,7 @@ func TestC20Logs(t *testing.T) {
 	rec.Require("cut-in-timestamp", "cut-in-header", "cut-in-payload", "cut-in-signature", "bad-entry-between-good", "negative-time", "sub-us", "writer-fault", "dialect")
 	dpool := pool(t)
 	errBoom := errors.New("injected write error")
-	evid.Check(t, rec, evid.N(1500, 8000), func(t *rapid.T) {
+	evid.Check(t, rec, evid.N(4000, 12000), func(t *rapid.T) {
 		var di *dialectInfo
 		var drw *dialect.ReadWriter
 		if rapid.Bool().Draw(t, "dialect") {
@@ -406,7 +406,7 @@ func TestC20Logs(t *testing.T) {
 func TestC05TlogTotality(t *testing.T) {
 	rec := evid.New(t, "C05", "tlog.Reader over log-shaped streams with damage (random byte substitutions, deletions, junk): no panic, terminates within n/9+2 calls; non-trivial = a damaged stream; distinct by hash of the stream")
 	dpool := pool(t)
-	evid.Check(t, rec, evid.N(4000, 30000), func(t *rapid.T) {
+	evid.Check(t, rec, evid.N(10000, 60000), func(t *rapid.T) {
 		var di *dialectInfo
 		var drw *dialect.ReadWriter
 		if rapid.Bool().Draw(t, "dialect") {
